@@ -145,7 +145,7 @@ pub fn vtree_case(u: &mut Unstructured, max_k: u8) -> Result<VtreeCase> {
 }
 
 pub fn sop(u: &mut Unstructured, ite_family: bool) -> Result<SOp> {
-    Ok(match u.arbitrary::<u8>()? % if ite_family { 16 } else { 10 } {
+    Ok(match u.arbitrary::<u8>()? % if ite_family { 17 } else { 10 } {
         0 | 1 => SOp::Lit(u.arbitrary()?, u.arbitrary()?),
         2 => SOp::Const(u.arbitrary()?),
         3 => SOp::Not(u.arbitrary()?),
@@ -158,13 +158,14 @@ pub fn sop(u: &mut Unstructured, ite_family: bool) -> Result<SOp> {
         12 => SOp::Ite(u.arbitrary()?, u.arbitrary()?, u.arbitrary()?),
         13 => SOp::Compose(u.arbitrary()?, u.arbitrary()?, u.arbitrary()?),
         14 => SOp::AndDisjoint(u.arbitrary()?, u.arbitrary()?),
+        16 => SOp::Dense(u.arbitrary()?),
         _ => SOp::OrDisjoint(u.arbitrary()?, u.arbitrary()?),
     })
 }
 
 pub fn c03_case(u: &mut Unstructured) -> Result<c03::Case> {
     let compress = u.arbitrary::<u8>()? % 4 != 0;
-    let vt = vtree_case(u, if compress { 6 } else { 4 })?;
+    let vt = vtree_case(u, if compress { 8 } else { 4 })?;
     let table_cap = match u.arbitrary::<u8>()? {
         0..=40 => None,
         x => Some(1 + (x as u16 % 32)),
